@@ -337,10 +337,14 @@ func run1(c *tcpm.Case, lifecycle bool) (f *vh.Failure, m *tcpm.Model, info map[
 				}
 			}
 			if lifecycle {
-				queued, saved, _ := reassembly.VerifConnPages(pool)
+				queued, saved, counted := reassembly.VerifConnPages(pool)
 				sum := 0
 				for k := range queued {
 					sum += queued[k] + saved[k]
+					if counted[k] != queued[k]+saved[k] {
+						// the per-connection limit is enforced on this counter: once it drifts the limit means nothing
+						r.failf("reassembly:pages-counter", "a half connection's page counter says %d but %d pages are queued and %d kept", counted[k], queued[k], saved[k])
+					}
 				}
 				if used := reassembly.VerifPagesUsed(a); used < sum {
 					r.failf("reassembly:pages-accounting", "page cache reports %d pages in use, live connections hold %d", used, sum)
